@@ -50,7 +50,7 @@ ffad523 C05 C05.boundary
 887f955 C08 C08.loopcond
 ebbf229+9a87f9b C08 C08.errexit
 d7c8347 C18 C18.fileid
-4c9c370+e4db022 C20 C20.retry
+e4db022+4c9c370 C20 C20.retry
 508f87a C17 C17.reset
 200dc39 C07 C07.strategies
 e6f927d C16 C16.destreads
@@ -83,6 +83,7 @@ e4db022 C20 C20.pool
 3f8cad3 C01 C01.unitpair
 cd01177 C01 C01.unitpair
 15c4f0f C18 C18.signed
+12fba99 C11 C11.stagefail
 LIST
 git -C /repo worktree remove --force $WT
 rm -rf /tmp/fixcheck-ev
